@@ -204,7 +204,8 @@ CHECKS = {
              "is compared with runs under: repetition, 12 --threads specifications incl. single-thread pools, permuted roots, "
              "--stdin, CPU affinity of 1 and 2 cores, and seeded jitter injected by hook H3 inside the hashing tasks and before "
              "the result channel (body must be identical); 7 hash functions, --max-prefix-size/--max-suffix-size, pinned disk "
-             "kind, cache cold/warm (partition must be identical). The number of distinct hash-completion orders observed per "
+             "kind, cache cold/warm (partition must be identical); a third of the trees add .gitignore files and file/directory "
+             "symlinks and run with --follow-links (several routes to one file). The number of distinct hash-completion orders observed per "
              "tree is measured from the event hook. A run that exceeds a generous watchdog is a violation only if the process is "
              "provably quiescent (all threads asleep, no CPU progress, no children; gdb backtrace recorded), otherwise "
              "inconclusive. Thorough: 40+40 workloads on -Zsanitizer=thread (build-std) and -Zsanitizer=address builds; a report "
